@@ -281,6 +281,17 @@ func VerifC10_MutatedScope() {
 	ni := nondetChoice("node", nmax)
 	op := nondetChoice("op", verifNMutOps)
 	verifApplyMutation(nodes[ni], op)
+	if verifTier() > 0 {
+		// thorough: a second mutation (delete or retype) at every 8th node of the already mutated tree
+		nodes2 := verifNodes(tree)
+		if len(nodes2) > 0 {
+			k2 := nondetChoice("node2", (len(nodes2)+7)/8+1)
+			if k2 > 0 {
+				op2 := nondetChoice("op2", 2)
+				verifApplyMutation(nodes2[(k2-1)*8], op2)
+			}
+		}
+	}
 	verifReach("C10/scope/mutated")
 	s, uerr := UnserializeScope(tree)
 	// "fully usable" is promised for schemas whose references are all linked; a reference into a namespace that
